@@ -62,6 +62,11 @@ CHECKS = {
             "TraverseStateChanges over full and random sub-ranges after every commit: each delivered version equals the model's net change (ascending, once per key, set entries also for unchanged values, delete entries for vanished keys), requested versions delivered; SaveChangeSet replay reproduces contents of every version, root hashes when the original writes were in normal form, and rejects removal of a missing key.",
             "Trusted: model M incl. its per-version 'last op was a Set' bookkeeping; R for original hashes.",
             "DESIGN.md §3 C15"),
+    "C17": ("fault_enumeration",
+            "runtime monitoring with systematic single-fault enumeration at the storage seam (every storage call of every public operation fails once) plus random multi-fault runs; differential oracle against the fault-free result and the C05 state oracle",
+            "Each public operation with an error result is run fault-free on a fresh handle to number its storage calls, then once per call index with exactly that call failing (Get, Has, iterator creation/step, batch Set/Delete/Write): it must return an error or exactly the fault-free result, never panic; a write operation with a failed write must not report success, and the store left behind must reopen to the state before or after.",
+            "Faults are injected at the corestore interface; a failed batch write applies nothing. Operations without an error result are outside the statement.",
+            "DESIGN.md §3 C17"),
     "C04": ("exploration",
             "runtime monitoring: before/after observation vectors (hash, contents, reads, ICS-23 proof verification) around every DeleteVersionsTo, live and after reopen; raw-store comparison for rejected requests; export pin",
             "Around every DeleteVersionsTo(n) in thousands of generated histories (no-op commits, empty versions, single-leaf roots, rollbacks + rewrites, deletions split over several physical batches by small flush thresholds), an observation vector of every later version is recorded before and compared after the call, on the live handle and on a freshly opened one; deleted versions must be unavailable on every API; rejected requests (latest version, version pinned by an open Exporter) must leave the raw store byte-identical.",
